@@ -482,6 +482,14 @@ def eval3(e, env, atoms=None):
     if isinstance(e, ast.UnaryOp) and isinstance(e.op, ast.Not):
         v = eval3(e.operand, env, atoms)
         return UNK if v is UNK else (not v)
+    if isinstance(e, (ast.Tuple, ast.List, ast.Set)) and not any(isinstance(x, ast.Starred) for x in e.elts):
+        vals = [eval3(x, env, atoms) for x in e.elts]
+        if any(v is UNK for v in vals):
+            return UNK
+        try:
+            return tuple(vals) if not isinstance(e, ast.Set) else frozenset(vals)
+        except TypeError:
+            return UNK
     if isinstance(e, ast.Call) and isinstance(e.func, ast.Name) and e.func.id == 'bool' and len(e.args) == 1 and not e.keywords:
         v = eval3(e.args[0], env, atoms)
         try:
@@ -525,6 +533,10 @@ def eval3(e, env, atoms=None):
                 return l > r
             if isinstance(op, ast.GtE):
                 return l >= r
+            if isinstance(op, ast.In) and isinstance(r, (tuple, frozenset, str)):
+                return l in r
+            if isinstance(op, ast.NotIn) and isinstance(r, (tuple, frozenset, str)):
+                return l not in r
         except Exception:
             return UNK
     return UNK
